@@ -129,6 +129,13 @@ class ReasonV:
 REASONS = {'MinimumVelocityReached': '.minVelocity', 'MaximumDropReached': '.maxDrop', 'MinimumAltitudeReached': '.minAltitude'}
 
 
+class SeqV:
+    """a symbolic sequence given by Lean functions of the index: kind 'points' (DragDataPoint: .Mach -> x i, .CD -> y i),
+    'floats' (x i), 'curve' (CurvePoint: (cv i).a/.b/.c); `n` = its length"""
+    def __init__(self, kind, names, n='n'):
+        self.kind, self.names, self.n = kind, names, n
+
+
 class StrC:
     def __init__(self, v):
         self.v = v
@@ -283,6 +290,16 @@ class Evaluator:
             idx = e.slice
             if isinstance(base, Lst) and isinstance(idx, ast.Constant) and isinstance(idx.value, int):
                 return base.items[idx.value]
+            if isinstance(base, SeqV):
+                i = self.ev(idx, env)
+                if not isinstance(i, (IntSym, IntC)) or (isinstance(i, IntC) and i.v < 0):
+                    raise Unsupported('sequence index')
+                it = i.s if isinstance(i, IntSym) else str(i.v)
+                if base.kind == 'points':
+                    return Obj('DragDataPoint', {'Mach': Num(f'({base.names[0]} {it})'), 'CD': Num(f'({base.names[1]} {it})')})
+                if base.kind == 'floats':
+                    return Num(f'({base.names[0]} {it})')
+                return Obj('CurvePoint', {k: Num(f'({base.names[0]} {it}).{k}') for k in 'abc'})
             if isinstance(base, SymArr):
                 i = self.ev(idx, env)
                 if isinstance(i, (IntSym, IntC)):
@@ -336,6 +353,16 @@ class Evaluator:
             return self.call_method('Vector', {'__add__': '__radd__', '__sub__': '__rsub__', '__mul__': '__rmul__'}[name], b, [a], env)
         if isinstance(a, IntSym) and isinstance(b, IntC) and isinstance(op, ast.Add) and b.v >= 0:
             return IntSym(f'({a.s} + {b.v})')
+        if isinstance(a, (IntSym, IntC)) and isinstance(b, (IntSym, IntC)) and (isinstance(a, IntSym) or isinstance(b, IntSym)):
+            x = a.s if isinstance(a, IntSym) else str(a.v)
+            y = b.s if isinstance(b, IntSym) else str(b.v)
+            if (isinstance(a, IntC) and a.v < 0) or (isinstance(b, IntC) and b.v < 0):
+                raise Unsupported('negative index constant')
+            # indices are natural numbers: `-` is the truncated subtraction (the code only forms in-range indices)
+            t = {ast.Add: f'({x} + {y})', ast.Sub: f'({x} - {y})', ast.FloorDiv: f'({x} / {y})'}.get(type(op))
+            if t is None:
+                raise Unsupported('index arithmetic')
+            return IntSym(t)
         if isinstance(a, IntC) and isinstance(b, IntC) and isinstance(op, (ast.Add, ast.Sub, ast.Mult)):
             v = {ast.Add: a.v + b.v, ast.Sub: a.v - b.v, ast.Mult: a.v * b.v}[type(op)]
             return IntC(v)
@@ -512,6 +539,10 @@ class Evaluator:
             return Num(f'(Fn.abs {num(args[0])})')
         if d == 'len' and len(args) == 1 and isinstance(args[0], SymArr):
             return IntSym(f'({args[0].s}).size')
+        if d == 'len' and len(args) == 1 and isinstance(args[0], SeqV):
+            return IntSym(args[0].n)
+        if d == 'int' and len(args) == 1 and isinstance(args[0], (IntSym, IntC)):
+            return args[0]
         if d == 'float' and len(args) == 1:
             return Num(num(args[0]))
         if d == 'max' and len(args) == 2:
@@ -628,6 +659,9 @@ class Evaluator:
                 if isinstance(s.value, ast.Call):
                     d = self.dotted(s.value.func) or ''
                     if d.startswith('warnings.') or d.startswith('logger.'):
+                        continue
+                    if d.endswith('.append') and d.count('.') == 1 and isinstance(env.get(d[:-7]), Lst) and len(s.value.args) == 1:
+                        env[d[:-7]] = Lst(env[d[:-7]].items + [self.ev(s.value.args[0], env)])
                         continue
                     if d.startswith('self.') and d.count('.') == 1 and env.get('self.__class__') == '_TrajectoryDataFilter' \
                             and d[5:] in self.compose:
@@ -1111,7 +1145,7 @@ def emit_loop_parts(ev):
                             'min_step': Num('minStep'), 'last_x': Num('lastX')})
     if c.kind != 'prop':
         raise Unsupported('loop condition')
-    out.append(f'/-- the condition of the `while` loop of `_integrate` -/\ndef loop_condition (x maxRange minStep lastX : α) : Prop :=\n  {c.s}\n')
+    out.append(f'/-- the condition of the `while` loop of `_integrate` -/\nabbrev loop_condition (x maxRange minStep lastX : α) : Prop :=\n  {c.s}\n')
     # --- limit checks: the `if` of the loop body whose test mentions _cMinimumVelocity
     lim = [n for n in loop.body if isinstance(n, ast.If) and '_cMinimumVelocity' in ast.dump(n.test)]
     if len(lim) != 1:
@@ -1132,6 +1166,73 @@ def emit_loop_parts(ev):
     out.append('/-- the limit check after every step: `none` = the loop goes on, `some reason` = `raise RangeError(reason, rows)` -/\n'
                'def limit_reason (minVel maxDrop minAlt alt0 velocity y : α) : Option Model.Reason :=\n'
                f'  if {outer.as_if()} then some {env["reason"].s} else none\n')
+    return '\n'.join(out)
+
+
+def emit_curve(ev):
+    """`calculate_curve` (first segment, loop body, loop bounds, last segment) and `_calculate_by_curve_and_mach_list` (initial
+    bracket, loop condition, loop body, selection, evaluation) as slices over a table given by index functions"""
+    out = []
+    f = ev.funcs.get('calculate_curve')
+    if f is None:
+        raise Unsupported('calculate_curve not found')
+    loops = [i for i, n in enumerate(f.body) if isinstance(n, ast.For)]
+    if len(loops) != 1:
+        raise Unsupported('calculate_curve: one for loop expected')
+    k = loops[0]
+    pts = SeqV('points', ('x', 'y'))
+    cp = lambda o: f'⟨{num(o.fields["a"])}, {num(o.fields["b"])}, {num(o.fields["c"])}⟩'   # noqa: E731
+    env = {'data_points': pts}
+    if ev.block(f.body[:k], env) is not None or not (isinstance(env.get('curve'), Lst) and len(env['curve'].items) == 1):
+        raise Unsupported('calculate_curve: the part before the loop was not recognised')
+    out.append(f'/-- `calculate_curve`: the first entry (built before the loop) -/\ndef curve_first (x y : Nat → α) : Model.CurvePoint α :=\n  {cp(env["curve"].items[0])}\n')
+    loop = f.body[k]
+    if not (isinstance(loop.target, ast.Name) and isinstance(loop.iter, ast.Call) and ev.dotted(loop.iter.func) == 'range' and len(loop.iter.args) == 2):
+        raise Unsupported('calculate_curve: for … in range(a, b) expected')
+    lo, hi = ev.ev(loop.iter.args[0], env), ev.ev(loop.iter.args[1], env)
+    lot = str(lo.v) if isinstance(lo, IntC) else lo.s
+    hit = str(hi.v) if isinstance(hi, IntC) else hi.s
+    out.append(f'/-- `calculate_curve`: bounds of `for i in range(lo, hi)` -/\ndef curve_loop_bounds (n : Nat) : Nat × Nat :=\n  ({lot}, {hit})\n')
+    e2 = dict(env)
+    e2[loop.target.id] = IntSym('i')
+    e2['curve'] = Lst([])
+    if ev.block(loop.body, e2) is not None or len(e2['curve'].items) != 1:
+        raise Unsupported('calculate_curve: the loop body was not recognised')
+    out.append(f'/-- `calculate_curve`: the entry appended by iteration `i` of the loop -/\ndef curve_mid (x y : Nat → α) (i : Nat) : Model.CurvePoint α :=\n  {cp(e2["curve"].items[0])}\n')
+    e3 = dict(env)
+    e3['curve'] = Lst([])
+    r = ev.block(f.body[k + 1:], e3)
+    if not (isinstance(r, Lst) and len(r.items) == 1):
+        raise Unsupported('calculate_curve: the part after the loop was not recognised')
+    out.append(f'/-- `calculate_curve`: the closing entry (appended after the loop) -/\ndef curve_last (x y : Nat → α) (n : Nat) : Model.CurvePoint α :=\n  {cp(r.items[0])}\n')
+    # ---- the look-up
+    g = ev.funcs.get('_calculate_by_curve_and_mach_list')
+    if g is None:
+        raise Unsupported('_calculate_by_curve_and_mach_list not found')
+    wl = [i for i, n in enumerate(g.body) if isinstance(n, ast.While)]
+    if len(wl) != 1:
+        raise Unsupported('_calculate_by_curve_and_mach_list: one while loop expected')
+    k = wl[0]
+    env = {'mach_list': SeqV('floats', ('x',)), 'curve': SeqV('curve', ('cv',)), 'mach': Num('m')}
+    if ev.block(g.body[:k], env) is not None or not all(isinstance(env.get(v), (IntSym, IntC)) for v in ('mlo', 'mhi')):
+        raise Unsupported('look-up: the initial bracket was not recognised')
+    it = lambda v: v.s if isinstance(v, IntSym) else str(v.v)   # noqa: E731
+    out.append(f'/-- `_calculate_by_curve_and_mach_list`: the initial bracket `(mlo, mhi)` -/\ndef bsearch_init (n : Nat) : Nat × Nat :=\n  ({it(env["mlo"])}, {it(env["mhi"])})\n')
+    e2 = dict(env)
+    e2['mlo'], e2['mhi'] = IntSym('lo'), IntSym('hi')
+    c = ev.cond(g.body[k].test, e2)
+    out.append(f'/-- the condition of the bisection loop -/\nabbrev bsearch_cond (lo hi : Nat) : Prop :=\n  {c.s}\n')
+    if ev.block(g.body[k].body, e2) is not None:
+        raise Unsupported('look-up: return inside the loop')
+    out.append(f'/-- one iteration of the bisection loop on the bracket -/\ndef bsearch_step (x : Nat → α) (m : α) (lo hi : Nat) : Nat × Nat :=\n  ({it(e2["mlo"])}, {it(e2["mhi"])})\n')
+    e3 = dict(env)
+    e3['mlo'], e3['mhi'] = IntSym('lo'), IntSym('hi')
+    r = ev.block(g.body[k + 1:], e3)
+    if r is None or not isinstance(e3.get('m'), IntSym):
+        raise Unsupported('look-up: the selection was not recognised')
+    out.append(f'/-- the entry selected from the final bracket (nearest node) -/\ndef curve_select (x : Nat → α) (m : α) (lo hi : Nat) : Nat :=\n  {e3["m"].s}\n')
+    out.append('/-- the value returned for the final bracket -/\n'
+               f'def curve_value (x : Nat → α) (cv : Nat → Model.CurvePoint α) (m : α) (lo hi : Nat) : α :=\n  {num(r)}\n')
     return '\n'.join(out)
 
 
@@ -1199,7 +1300,8 @@ def generate(repo: Path) -> str:
         out.append(emit_filter(ev, spec))
     out.append(emit_sock(ev))
     out.append(emit_loop_parts(ev))
-    out += ['end', '', 'def translated : List String := [' + ', '.join(f'"{s[0]}"' for s in SPECS) + ', "step", ' + ', '.join(f'"{s[0]}"' for s in FILTER_SPECS) + ', "sock_init", "sock_vector_for_range", "sock_current_vector", "initial_state", "min_step", "loop_condition", "limit_reason"]', '', 'end BC.Gen.Src', '']
+    out.append(emit_curve(ev))
+    out += ['end', '', 'def translated : List String := [' + ', '.join(f'"{s[0]}"' for s in SPECS) + ', "step", ' + ', '.join(f'"{s[0]}"' for s in FILTER_SPECS) + ', "sock_init", "sock_vector_for_range", "sock_current_vector", "initial_state", "min_step", "loop_condition", "limit_reason", "curve_first", "curve_loop_bounds", "curve_mid", "curve_last", "bsearch_init", "bsearch_cond", "bsearch_step", "curve_select", "curve_value"]', '', 'end BC.Gen.Src', '']
     return '\n'.join(out)
 
 
